@@ -1210,7 +1210,29 @@ func (c *c10Gen) perturbGI(gi c10GI) (c10GI, string) {
 	g := c.g
 	out := cloneGI(gi)
 	for try := 0; try < 10; try++ {
-		switch g.Intn(21) {
+		switch g.Intn(23) {
+		case 21:
+			// same addresses, same total, one unit moved from one account to another: only a per-account
+			// comparison of the amounts can tell
+			if len(gi.Accs) > 1 {
+				i := g.Intn(len(gi.Accs))
+				j := (i + 1 + g.Intn(len(gi.Accs)-1)) % len(gi.Accs)
+				if out.Accs[i].Amt.Cmp(big.NewInt(1)) > 0 && gi.Accs[i].Addr != gi.Accs[j].Addr {
+					out.Accs[i].Amt = new(big.Int).Sub(out.Accs[i].Amt, big.NewInt(1))
+					out.Accs[j].Amt = new(big.Int).Add(out.Accs[j].Amt, big.NewInt(1))
+					return out, "amounts-redistributed"
+				}
+			}
+		case 22:
+			// the amounts of two accounts swapped (a permutation of the amounts, not of the accounts)
+			if len(gi.Accs) > 1 {
+				i := g.Intn(len(gi.Accs))
+				j := (i + 1 + g.Intn(len(gi.Accs)-1)) % len(gi.Accs)
+				if out.Accs[i].Amt.Cmp(out.Accs[j].Amt) != 0 && gi.Accs[i].Addr != gi.Accs[j].Addr {
+					out.Accs[i].Amt, out.Accs[j].Amt = out.Accs[j].Amt, out.Accs[i].Amt
+					return out, "amounts-swapped"
+				}
+			}
 		case 20:
 			if gi.isDenomSet() && g.Chance(40) {
 				out.Accs = nil
